@@ -148,6 +148,8 @@ json_endpoints! {
     fn enum_map_body(id: i32, body: BTreeMap<Color, StrAlias>) -> ();
     fn safe_enum_map_body(id: i32, body: BTreeMap<Color, Vec<Color>>) -> ();
     fn out_of_order(third: i32, second: String, q: Option<String>, first: String) -> String;
+    fn one_query(page_limit: Option<i32>) -> i32;
+    fn one_query_required(the_id: i32) -> i32;
     fn noop() -> ();
 }
 
